@@ -491,6 +491,8 @@ func cmdSearch(seed uint64, n int) {
 			}
 		}
 	}
+	// count-field inflation of every box type that allocates from a count or length field
+	searchCounts(r, n, &jobs, &descs)
 	res := runJobs(jobs, nprocs())
 	nfail := 0
 	for i, rs := range res {
